@@ -22,7 +22,7 @@ func init() {
 			{PkgPath: machinePkg, Func: "verifC16WaitTimeoutReal", Opt: engine.Options{NoOverrides: true, MaxPaths: 50000, RealBodies: map[string]bool{"github.com/goose-lang/primitive.WaitTimeout": true}}, Replay: "race"},
 		},
 		Covers: []string{"c16/tostring", "c16/mapclear/u64", "c16/mapclear/str", "c16/assume-assert", "c16/waittimeout/delegate", "c16/waittimeout/real"},
-		Bounds: "UInt64ToString: all 2^64 values (fork on the 20 digit counts); MapClear: ≤3 entries, symbolic keys/values, all iteration orders, instantiated at map[uint64]uint64 and a named map[string][]byte; Assume/Assert: both booleans; WaitTimeout: all timeouts, delegation contract only. Outside: real-time behaviour of WaitTimeout, maps with more entries, other instantiations of MapClear.",
+		Bounds: "UInt64ToString: all 2^64 values (fork on the 20 digit counts); MapClear: ≤4 (quick) / ≤6 and ≤5 (thorough) entries, symbolic keys/values, all iteration orders, instantiated at map[uint64]uint64 and a named map[string][]byte; Assume/Assert: both booleans; WaitTimeout: all timeouts, delegation contract only. Outside: real-time behaviour of WaitTimeout, maps with more entries, other instantiations of MapClear.",
 		Assumptions: []string{
 			"fmt.Sprintf is an intrinsic: %d of a symbolic integer is its canonical decimal rendering (fresh digit variables constrained by x = Σ d_i·10^i); the check therefore decides that the real code formats x itself with a decimal verb, not fmt's own correctness",
 			"map iteration visits the live entries in an arbitrary order; entries deleted during the range are not visited (Go spec)",
